@@ -167,7 +167,10 @@ def ref : Exn → String
 
 /-- `type(exc).__name__` as the harness defines its exception classes -/
 def typeName : Exn → String
-  | .ordinary _ dk => "X" ++ dk.name
+  | .ordinary id dk =>
+    -- the harness builds every token with `id % 3 ≠ 0 ∧ id % 4 = 1` (except TRANSIENT) from ONE shared type `XGEN`
+    -- whose class is carried by the instance (`status`), cf. `harness/loopenv.py::make_exception`
+    if id % 3 != 0 && id % 4 == 1 && dk != .transient then "XGEN" else "X" ++ dk.name
   | .abort _ | .libAbort => "AbortRetryError"
   | .exhausted .. | .libExhausted _ => "RetryExhaustedError"
   | .circuitOpen _ | .libCircuitOpen _ => "CircuitOpenError"
